@@ -13,15 +13,23 @@ theorem C01_init : WF World.empty := WF_empty
 (also invalid ones) and whatever the outcome (`ok` or `raised`). -/
 theorem C01_step (w : World) (op : Op) (h : WF w) : WF (step w op).1 := step_WF w op h
 
-/-- **C01_history**: the invariant holds after every finite history of operations. -/
-theorem C01_history (ops : List Op) : WF (run ops) := by
-  unfold run
-  exact foldl_inv WF _ (fun a b ha => C01_step a b ha) ops _ C01_init
+/-- **C01_step_conv**: the composite calls (`convenience.replace_all_uses_with`, `rename_values`,
+`replace_nodes_and_values`) preserve the invariant as well — including the intermediate state they
+leave behind when one of their sub-calls raises. -/
+theorem C01_step_conv (w : World) (op : ConvOp) (h : WF w) : WF (stepConv w op).1 := stepConv_WF w op h
+
+/-- single and composite calls together -/
+theorem C01_step_any (w : World) (op : AnyOp) (h : WF w) : WF (stepAny w op).1 := stepAny_WF w op h
+
+/-- **C01_history**: the invariant holds after every finite history of calls. -/
+theorem C01_history (ops : List AnyOp) : WF (runAny ops) := by
+  unfold runAny
+  exact foldl_inv WF _ (fun a b ha => C01_step_any a b ha) ops _ C01_init
 
 /-- the same from any well-formed starting point -/
-theorem C01_history_from (w : World) (ops : List Op) (h : WF w) :
-    WF (ops.foldl (fun w o => (step w o).1) w) :=
-  foldl_inv WF _ (fun a b ha => C01_step a b ha) ops _ h
+theorem C01_history_from (w : World) (ops : List AnyOp) (h : WF w) :
+    WF (ops.foldl (fun w o => (stepAny w o).1) w) :=
+  foldl_inv WF _ (fun a b ha => C01_step_any a b ha) ops _ h
 
 /-! ### what `WF` says, spelled out on the accessors (so that the statement can be read off) -/
 
